@@ -8,6 +8,9 @@ package inputs
 import (
 	"bytes"
 	"fmt"
+	"os"
+	"path/filepath"
+	"sort"
 	"strings"
 
 	"github.com/gabriel-vasile/mimetype/internal/verifsim/core"
@@ -31,7 +34,74 @@ var Families = []string{
 	"json", "json_trunc", "json_bad", "geojson", "har", "gltf", "json_deep", "json_nest", "json_wide",
 	"ndjson", "ndjson_bad", "csv", "csv_ragged", "csv_big", "tsv",
 	"png", "gif", "pdf", "zip", "docx", "ole", "elf", "gzip", "random", "empty",
-	"shebang", "svg", "rtf", "srt", "vcard", "bom8", "utf8",
+	"shebang", "svg", "rtf", "srt", "vcard", "bom8", "utf8", "tar", "sample",
+}
+
+// SampleDir is the directory of real sample files (the repository's testdata);
+// empty or missing: the "sample" family falls back to a tar header.
+var SampleDir string
+
+var sampleNames []string
+var sampleCache = map[string][]byte{}
+
+// Samples lists the sample files, sorted (so that an index means the same file in every process).
+func Samples() []string {
+	if sampleNames == nil && SampleDir != "" {
+		es, _ := os.ReadDir(SampleDir)
+		for _, e := range es {
+			if !e.IsDir() {
+				if fi, err := e.Info(); err == nil && fi.Size() <= 4<<20 {
+					sampleNames = append(sampleNames, e.Name())
+				}
+			}
+		}
+		sort.Strings(sampleNames)
+		if sampleNames == nil {
+			sampleNames = []string{}
+		}
+	}
+	return sampleNames
+}
+
+func sample(i int) []byte {
+	ns := Samples()
+	if len(ns) == 0 {
+		return tarHeader("fallback.txt", 11)
+	}
+	name := ns[i%len(ns)]
+	if b, ok := sampleCache[name]; ok {
+		return b
+	}
+	b, err := os.ReadFile(filepath.Join(SampleDir, name))
+	if err != nil {
+		b = tarHeader(name, 3)
+	}
+	sampleCache[name] = b
+	return b
+}
+
+// tarHeader builds one valid ustar header block (checksum included) followed by n content bytes.
+func tarHeader(name string, n int) []byte {
+	h := make([]byte, 512)
+	copy(h[0:], name)
+	copy(h[100:], "0000644\x00")
+	copy(h[108:], "0001750\x00")
+	copy(h[116:], "0001750\x00")
+	copy(h[124:], fmt.Sprintf("%011o\x00", n))
+	copy(h[136:], "14371573504\x00")
+	copy(h[148:], "        ")
+	h[156] = '0'
+	copy(h[257:], "ustar\x0000")
+	copy(h[265:], "root")
+	copy(h[297:], "root")
+	sum := 0
+	for _, c := range h {
+		sum += int(c)
+	}
+	copy(h[148:], fmt.Sprintf("%06o\x00 ", sum))
+	body := make([]byte, (n+511)/512*512)
+	copy(body, textN(clamp(n, 0, 1<<20), uint64(n)))
+	return append(h, body...)
 }
 
 // Tag classifies what a detection of the input does to recycled state.
@@ -315,6 +385,11 @@ func (in Input) base() []byte {
 		b[0] = 0x01 // keep it binary and free of known magic numbers
 		b[1] = 0x02
 		return b
+	case "tar":
+		names := []string{"hello.txt", "dir/a/b/c.json", "x", "archive/member-with-a-long-name.bin"}
+		return tarHeader(names[v%len(names)], clamp(n, 0, 1<<20))
+	case "sample":
+		return append([]byte(nil), sample(clamp(v, 0, 1<<30)+clamp(p, 0, 1<<30))...)
 	case "utf8":
 		// valid UTF-8 text dense in 2-, 3- and 4-byte sequences, so that a cut at
 		// almost any limit falls inside a rune; V selects the mix, P shifts the phase
